@@ -35,6 +35,9 @@ ASSUMPTIONS = [
     "MA-set / MA-alias (coq/Iso/Canon.v): Python sets are modelled in first-insertion order (no theorem depends on it; the "
     "theorems C14_refine_invariant / C14_label_independent_partial are about relabelled copies that keep the order), Color identity "
     "by position / structural equality, the in-place nodes.extend of the collision merge functionally",
+    "the colouring _refine returns depends on the order of the hash VALUES (C14_refine_hash_order_refuted: equal colour sums for "
+    "structurally different nodes are merged as collisions under one hash function and not under another), so partitions are not "
+    "compared between rdflib (SHA-256) and the model instance (FNV-style hash)",
     "completeness of rdflib's canonical labelling is proved only up to ORDER: label independence of the whole modelled algorithm "
     "(C14_label_independent_partial); independence of the order of triples / set iteration is NOT proved (and false of the code at "
     "79109fff, finding FC14c) - C14_complete_statement stays a Definition; the differential runs against iso_dec are the evidence",
